@@ -2,11 +2,23 @@
    bit 0: the mechanism's acceptor rejects the observed log; bit 1: the property monitor does. *)
 From Verif Require Import Base.CaseCheck Multi.Trace Multi.Accept.
 
-Inductive ecase := Case (t : topo) (log : list event).
+(* Case: an L-engine run (acceptor + monitor).  SCase: a run of the real lifecycle services, where
+   the ack observed is the one the source PLUGIN received: monitors only, the acceptor is an
+   engine-level model. *)
+Inductive ecase := Case (t : topo) (log : list event) | SCase (t : topo) (log : list event).
 
 Definition chk01 (c : ecase) : nat :=
-  match c with Case t log => code (accepts t log) (Mon_C01 t log) end.
+  match c with
+  | Case t log => code (accepts t log) (Mon_C01 t log)
+  | SCase t log => code true (Mon_C01 t log)
+  end.
 Definition chk04 (c : ecase) : nat :=
-  match c with Case t log => code (accepts t log) (Mon_C04 t log) end.
+  match c with
+  | Case t log => code (accepts t log) (Mon_C04 t log)
+  | SCase t log => code true (Mon_C04 t log)
+  end.
 Definition chk05 (c : ecase) : nat :=
-  match c with Case t log => code (accepts t log) (Mon_C05 t log) end.
+  match c with
+  | Case t log => code (accepts t log) (Mon_C05 t log)
+  | SCase t log => code true (Mon_C05 t log)
+  end.
